@@ -202,7 +202,7 @@ impl Check for C05 {
         tier.pick(std::time::Duration::from_secs(150), std::time::Duration::from_secs(1500))
     }
     fn required_counters(&self, _tier: Tier) -> Vec<&'static str> {
-        vec!["outcome:value", "outcome:split", "outcome:merged", "terminal:Timeout", "terminal:Finished", "callers:cancelled", "duplicate-responder-sequences", "retry:reads-below-quorum", "retry:reads-reaching-quorum", "realnet:keys-read", "realnet:read-outcome:value"]
+        vec!["outcome:value", "outcome:split", "outcome:merged", "terminal:Timeout", "terminal:Finished", "callers:cancelled", "duplicate-responder-sequences", "retry:reads-below-quorum", "retry:reads-reaching-quorum"]
     }
     fn lane_cases(&self, tier: Tier) -> u64 {
         tier.pick(8, 64)
